@@ -140,6 +140,7 @@ func CheckC03(l *Lab, verifDir string) int {
 	wg.Wait()
 	for _, mode := range []string{"roundrobin", "unsigned"} {
 		c03Concurrent(l, rep, mode, l.Pick(10, 150))
+		c03AffixHosts(l, rep, mode)
 	}
 	return rep.Finish(50)
 }
@@ -765,4 +766,71 @@ func shortPortPair() (short, long *Backend) {
 		return s, l
 	}
 	return nil, nil
+}
+
+// c03AffixHosts: the placeholder sits in the middle of the configured entry ("127.0.0.{{ preferred_username }}:P")
+// and the user is called "1". The entry stands for exactly 127.0.0.1:P. Hosts that merely begin and end
+// like it (127.0.0.12:P, 127.0.0.100:P — real loopback addresses, the first one with a listener) are
+// other hosts: access-denied, no connection.
+func c03AffixHosts(l *Lab, rep *Report, mode string) {
+	other, err := NewBackend("127.0.0.12")
+	if err != nil {
+		rep.Inconclusive("affix probe: " + err.Error())
+		return
+	}
+	defer other.Close()
+	f, err := l.NewFixture(FixtureOpts{Kind: "ntlm", User: "1", Mutate: func(c *GWConfig) {
+		c.HostSelection = mode
+		c.Hosts = []string{fmt.Sprintf("127.0.0.{{ preferred_username }}:%d", other.Port), fmt.Sprintf("{{ preferred_username }}27.0.0.1:%d", other.Port)}
+	}})
+	if err != nil {
+		rep.Inconclusive("affix probe fixture: " + err.Error())
+		return
+	}
+	defer f.Close()
+	W := 10 * time.Second
+	for _, tr := range Transports() {
+		for _, host := range []string{"127.0.0.12", "127.0.0.100", "127.0.0.1.", "127.0.0.01", "1127.0.0.1", "127.0.0.1"} {
+			env := f.Env(tr)
+			env.W = W
+			t, _, err := env.OpenTunnel(NewConnID("af"))
+			if err != nil || t == nil {
+				rep.Inconclusive(fmt.Sprintf("affix probe: open: %v", err))
+				continue
+			}
+			before := len(other.Conns())
+			steps := [][]byte{f.SymHS(true).Wire, f.SymTC("none", "").Wire, f.SymTA().Wire, ChannelCreate(host, uint16(other.Port))}
+			var st uint32 = 0xFFFFFFFF
+			okSetup := true
+			for i, wire := range steps {
+				t.Send(wire)
+				if n, _ := t.WaitPackets(i+1, W); n < i+1 {
+					okSetup = i == 3
+					break
+				}
+				st, _ = LenientStatus(t.Snapshot().Packets[i].Raw)
+				if i < 3 && st != 0 {
+					okSetup = false
+					break
+				}
+			}
+			snap := t.Snapshot()
+			t.Close()
+			if !okSetup {
+				rep.Inconclusive("affix probe: setup step refused or unanswered")
+				continue
+			}
+			accepted := len(other.Conns()) - before
+			rep.Eval(HashStr("affix", mode, tr, host, st, accepted))
+			rep.Count("affix_host_probes", 1)
+			if host == "127.0.0.1" {
+				continue // the entry itself: allowed, nobody listens there; calibration only
+			}
+			if accepted > 0 || st == 0 {
+				rep.Violate("C03/connection-for-denied-host/ntlm/"+mode+"/entry-affixes", fmt.Sprintf("user \"1\", entries 127.0.0.{{ preferred_username }}:%d and {{ preferred_username }}27.0.0.1:%d: channel create for %s:%d (not the substituted entry, only its beginning and end) answered %#x and %d connection(s) reached the listener on 127.0.0.12", other.Port, other.Port, host, other.Port, st, accepted), map[string]any{"trace": snap.Log})
+			} else if len(snap.Packets) >= 4 && st != EProxyRapAccessDenied {
+				rep.Violate("C03/wrong-denial-status/ntlm/"+mode+"/entry-affixes", fmt.Sprintf("channel create for %s:%d, which no entry stands for, answered %#x, want access-denied %#x", host, other.Port, st, uint32(EProxyRapAccessDenied)), map[string]any{"trace": snap.Log})
+			}
+		}
+	}
 }
